@@ -409,6 +409,7 @@ class CoreBlock:
         self.full = self.minimal = None
         self.ders, self.leaves, self.parts, self.all, self.split, self.complete = [], [], [], None, None, False
         self.current = None
+        self.orig = []
 
 
 def parse_core_trace(trace_text):
@@ -431,8 +432,13 @@ def parse_core_trace(trace_text):
             m = re.match(r"^\(core-leaf ([0-9]+) \(([0-9 ]*)\)\)$", line)
             cur.leaves.append((int(m.group(1)), [int(x) for x in m.group(2).split()]))
         elif line.startswith("(core-part"):
-            m = re.match(r"^\(core-part ([0-9]+) (-?[0-9]+) (.*)\)$", line)
-            cur.parts.append((int(m.group(1)), int(m.group(2)), m.group(3)))
+            m = re.match(r"^\(core-part ([0-9]+) (-?[0-9]+|\([0-9 ]*\)) (.*)\)$", line)
+            ix = m.group(2)
+            ix = [int(x) for x in ix.strip("()").split()] if ix.startswith("(") else [int(ix)]
+            cur.parts.append((int(m.group(1)), ix, m.group(3)))
+        elif line.startswith("(core-orig"):
+            m = re.match(r"^\(core-orig ([0-9]+) ([0-9]+)\)$", line)
+            cur.orig.append((int(m.group(1)), int(m.group(2))))
         elif line.startswith("(core-current"):
             m = re.match(r"^\(core-current \(([0-9 ]*)\)\)$", line)
             cur.current = [int(x) for x in m.group(1).split()]
@@ -452,13 +458,14 @@ def core_request(b, undef=4294967295):
     """driver request replaying a traced buildBody on the extracted model"""
     ders = ";".join("%d:%d:%s" % (c, t, ilist(ps)) for c, t, ps in b.ders)
     lm = ";".join("%d:%s" % (c, ilist(bits)) for c, bits in b.leaves)
-    parts = ";".join("%d:%d" % (t, i) for t, i, _ in b.parts)
+    parts = ";".join("%d:%s" % (t, ilist(i)) for t, i, _ in b.parts)
     if b.full:
         ne, cont = "0", ""
     else:
         ne = "1" if b.split[0] else "0"
         cont = ";".join("%d:%d" % (t, 1 if c else 0) for t, c in zip(b.all, b.split[1]))
-    return "core %d|%s|%s|%s|%d|%d|%s|%s" % (undef, ders, lm, parts, 1 if b.full else 0, 1 if b.minimal else 0, ne, cont)
+    orig = ";".join("%d:%d" % (r, o) for r, o in b.orig)
+    return "core %d|%s|%s|%s|%d|%d|%s|%s|%s" % (undef, ders, lm, parts, 1 if b.full else 0, 1 if b.minimal else 0, ne, cont, orig)
 
 
 def parse_core_ok(ans):
